@@ -66,7 +66,13 @@ func verifC02Stream(mode int, async, customExec bool, bufSize, maxReads int, bur
 		}
 	}
 	if halfClose {
-		f.peerClose()
+		// the peer is done: a half-close (TCP FIN) or a full close with hang-up
+		// (unix socket), in both cases after everything it sent
+		if verifChoose("peer_closes_fully", 2) == 1 {
+			f.peerCloseFull()
+		} else {
+			f.peerClose()
+		}
 	}
 	verifJoin()
 	if !halfClose {
@@ -114,7 +120,9 @@ func verifHarness_C02_async_custom_executor() {
 }
 
 func verifHarness_C02_half_close() {
-	verifC02Stream(verifChoose("mode", 3), false, false, 2, 3, 1, 3, true, 2)
+	// buffer size and per-loop read limit such that the burst may or may not fit
+	// into one event's reads
+	verifC02Stream(verifChoose("mode", 3), false, false, 1+verifChoose("bufsize", 2), 1+verifChoose("maxreads", 2)*2, 1, 3, true, 2)
 	verifAssert(false, "witness")
 }
 
@@ -277,5 +285,12 @@ func verifHarness_C02_two_pollers_two_conns() {
 	verifAssertD(len(got[conns[0]]) == 4 && verifEqBytes(got[conns[0]], want0), "every-byte-delivered-exactly-once", name)
 	verifAssertD(len(got[conns[1]]) == 2 && verifEqBytes(got[conns[1]], d1), "every-byte-delivered-exactly-once", name+"/second")
 	verifAssertD(len(got) == 2, "bytes-attributed-to-their-connection", name)
+	verifAssert(false, "witness")
+}
+
+// the peer sends and closes while reading is asynchronous: the close must not
+// overtake the dispatched read task
+func verifHarness_C02_half_close_async() {
+	verifC02Stream(verifChoose("mode", 3), true, verifChoose("custom_executor", 2) == 1, 2, 3, 1, 3, true, 2)
 	verifAssert(false, "witness")
 }
